@@ -449,10 +449,9 @@ Definition mon_op (g : ledger) (o : op) (r : resp) : ledger :=
       upd_kl g k (fun x => x <| kl_alive := false |>)
   | OScanInFlight t c now, ROk => g <| g_clk := now |>
   | OScanDeferred t c now, ROk =>
-      upd_cl g t c (fun cl => cl <| l_msgs ::= map (fun x => match ms_release (snd x) with
-                                                             | Some rel => if (rel <=? now)%Z then (fst x, (snd x) <| ms_release := None |>) else x
-                                                             | None => x
-                                                             end) |>)
+      (* the releases are settled by the EExpired event that follows (what the scan really
+         re-queued is compared there with what was due) *)
+      g <| g_clk := now |>
   | OPauseChan t c p, ROk => upd_cl g t c (fun cl => cl <| l_paused := p |>)
   | OPauseTopic t p _, ROk => upd_tl g t (fun x => (x <| tl_paused := p |>) <| tl_pending ::= fun l => if p then l else [] |>)
   | OEmptyTopic t, ROk =>
@@ -507,7 +506,27 @@ Definition mon_expired (g : ledger) (t c : N) (infl : bool) (ids : list N) : led
         upd_cl g t c (fun cl => cl <| l_msgs ::= map (fun x => if mem_n (fst x) ids then (fst x, (snd x) <| ms_holder := None |>) else x) |>)
     | None => g
     end
-  else g.
+  else
+    match find_cl g t c with
+    | Some cl =>
+        (* C04: a deferred message (REQ with a delay, clamped to max-req-timeout; DPUB) is
+           released by the first scan whose clock has reached its release time, not before *)
+        let early := existsb (fun id => match ms_release (ms_get (l_msgs cl) id) with
+                                        | Some rel => (g_clk g + dl_slack <? rel)%Z
+                                        | None => false
+                                        end) ids in
+        let late := existsb (fun x => match ms_release (snd x) with
+                                      | Some rel => (rel + dl_slack <=? g_clk g)%Z && negb (mem_n (fst x) ids)
+                                      | None => false
+                                      end) (l_msgs cl) in
+        let g := flag 4 (negb early && negb late) g in
+        upd_cl g t c (fun cl => cl <| l_msgs ::= map (fun x => match ms_release (snd x) with
+                                                               | Some rel => if mem_n (fst x) ids || (rel <=? g_clk g)%Z
+                                                                             then (fst x, (snd x) <| ms_release := None |>) else x
+                                                               | None => x
+                                                               end) |>)
+    | None => g
+    end.
 
 (* C13: /stats reports the same numbers in text and JSON form and under topic / channel
    filters: a view equals the last snapshot restricted as NSQD.GetStats documents (topic
